@@ -22,6 +22,16 @@ import (
 type c14Entry struct {
 	Shape gen.Shape `json:"shape"`
 	Recs  []gen.Rec `json:"recs"`
+	// Sample > 0: the entry is repository sample number Sample (schema and input) instead of Shape/Recs
+	Sample int `json:"sample,omitempty"`
+}
+
+func (e c14Entry) schemaAndInput() (string, []byte, bool) {
+	if e.Sample > 0 {
+		sch, in, _, ok := sampleOf(e.Sample)
+		return sch, in, ok
+	}
+	return e.Shape.Schema(), e.Shape.Render(e.Recs), true
 }
 
 type c14Case struct {
@@ -36,6 +46,12 @@ func genC14(t *rapid.T) c14Case {
 	c := c14Case{}
 	n := rapid.IntRange(2, 4).Draw(t, "nentries")
 	for i := 0; i < n; i++ {
+		if rapid.IntRange(0, 5).Draw(t, fmt.Sprintf("e%dsample", i)) == 0 {
+			if k := drawSample(t, fmt.Sprintf("e%dsampleNo", i)); k > 0 {
+				c.Entries = append(c.Entries, c14Entry{Sample: k})
+				continue
+			}
+		}
 		e := c14Entry{Shape: gen.DrawShape(t, gen.ShapeOpts{MaxXform: 3})}
 		e.Recs = gen.DrawRecs(t, e.Shape, fmt.Sprintf("e%d", i), 1, 5, gen.ValueOpts{})
 		c.Entries = append(c.Entries, e)
@@ -95,14 +111,19 @@ func checkC14(c c14Case) obs.Result {
 	schemas := make([]omniparser.Schema, len(c.Entries))
 	inputs := make([][]byte, len(c.Entries))
 	serial := make([][]run.Step, len(c.Entries))
-	js := false
+	js, sample := false, false
 	for i, e := range c.Entries {
-		sch, err := run.NewSchema(e.Shape.Schema())
+		schemaText, in, ok := e.schemaAndInput()
+		if !ok {
+			return obs.Result{Excluded: "no such sample"}
+		}
+		sample = sample || e.Sample > 0
+		sch, err := run.NewSchema(schemaText)
 		if err != nil {
 			return obs.Violationf("generated schema rejected: %v", err)
 		}
 		schemas[i] = sch
-		inputs[i] = e.Shape.Render(e.Recs)
+		inputs[i] = in
 		serial[i], err = c14Run(sch, inputs[i], nil)
 		if err != nil {
 			return obs.Result{Excluded: "serial run has no terminal result"}
@@ -154,6 +175,9 @@ func checkC14(c c14Case) obs.Result {
 	classes := []string{fmt.Sprintf("goroutines=%d", len(c.Assign)), fmt.Sprintf("maxprocs=%d", c.MaxProcs)}
 	if js {
 		classes = append(classes, "javascript")
+	}
+	if sample {
+		classes = append(classes, "repo-sample")
 	}
 	obs.Count("goroutine_transforms", len(c.Assign)*c.Repeats)
 	return obs.OK(len(distinct) >= 2, classes...)
